@@ -606,11 +606,11 @@ class ControllerRun:
             if mid:
                 return "mid"
 
-    def abort(self, a):
-        """the application is stopped while its subroutine is suspended inside an instruction (a simulator hook yielded):
-        'aborted', or what step() reports if the instruction has no such suspension point"""
+    def abort(self, a, at_wait=False):
+        """the application is stopped while its subroutine is suspended inside an instruction (a simulator hook yielded)
+        or blocked in a wait: 'aborted', or what step() reports if the subroutine is not suspended there"""
         r = self.step(a, mid=True)
-        if r != "mid":
+        if r != ("blocked" if at_wait else "mid"):
             return r
         self.zombies[a] = self.gens.pop(a)
         self.stop(a)
@@ -709,11 +709,14 @@ class ControllerRun:
                 # physical qubit takes time): offered when the next instruction is a qfree of an allocated qubit
                 prog = ctrl_lib(a)[self.progname[a]]
                 pc = ex._program_counters.get(self.subid.get(a), 0) if a in self.subid else 0
-                if not has_req and a not in pend_apps and pc < len(prog) and prog[pc]["mn"] == "qfree":
+                if pc < len(prog) and prog[pc]["mn"] == "qfree":
                     um = ex._qubit_unit_modules[a]
                     v = prog[pc]["ops"][0] - 32
                     if v < len(um) and um[v] is not None:
                         acts.append(("abort", a))
+                # ... or on one that is blocked waiting for entanglement (request outstanding / response waiting)
+                if (has_req or a in pend_apps) and pc < len(prog) and prog[pc]["mn"] == "wait_all":
+                    acts.append(("abortwait", a))
             if has_req and a not in pend_apps:
                 acts.append(("deliver", a, "alloc"))
                 um = ex._qubit_unit_modules[a]
@@ -742,13 +745,16 @@ class ControllerRun:
                 ev.update(app=act[1])
                 if self.step(act[1]) == "blocked":
                     return None
-            elif act[0] == "abort":
-                ev.update(app=act[1])
-                r = self.abort(act[1])
+            elif act[0] in ("abort", "abortwait"):
+                a_ = act[1]
+                ev.update(app=a_, a="abort", outstanding=bool(len(self.ex._epr_create_requests.get((1, a_), [])) > 0
+                                                             or any(r.purpose_id == a_ for r in self.ex._pending_epr_responses)))
+                r = self.abort(a_, at_wait=(act[0] == "abortwait"))
                 if r == "blocked":
                     return None
                 if r != "aborted":
-                    ev["a"] = "step"           # the instruction has no suspension point: an ordinary step
+                    ev["a"] = "step"           # the subroutine was not suspended there: an ordinary step
+                    ev.pop("outstanding")
             elif act[0] == "zombie":
                 ev.update(app=act[1])
                 self.zombie(act[1])
